@@ -429,9 +429,14 @@ class Engine(ExprMixin, CallMixin, StmtMixin):
             goal = self.goal_of(items, st)
             if cl.carve:
                 fid, hyp = cl.carve
-                hz = self.goal_of(self.spec.clause(hyp, ctx), st)
-                self.oblige('%s#%s[outside %s]' % (c.key, cl.label, fid), st, Implies(hz, goal), cl.kind, cl.props)
                 self.oblige('%s#%s[%s]' % (c.key, cl.label, fid), st, goal, 'K', cl.props, meta={'finding': fid})
+                # the finding's hypothesis is an assumption (quantifiers in it are instantiated, not skolemised)
+                st2 = st.fork()
+                ctx2 = self._post_ctx(c, st2, res, names)
+                self.assume_clause(st2, self.spec.clause(hyp, ctx2))
+                for sub in _index_terms(goal):
+                    self.touch(st2, sub)
+                self.oblige('%s#%s[outside %s]' % (c.key, cl.label, fid), st2, goal, cl.kind, cl.props)
             else:
                 self.oblige('%s#%s' % (c.key, cl.label), st, goal, cl.kind, cl.props)
         # a normal return while an exact `raises` condition holds contradicts the contract
@@ -622,9 +627,11 @@ class Engine(ExprMixin, CallMixin, StmtMixin):
             if self._alias_clause(cl.text, ctx_n, sn, binding, res):
                 continue
             if cl.carve:        # a clause with an open finding is only available under the finding's hypothesis
-                hz = self.goal_of(self.spec.clause(cl.carve[1], ctx_n))
+                hitems = self.spec.clause(cl.carve[1], ctx_n)
+                if any(isinstance(h_, QBool) for h_ in hitems):
+                    continue    # a quantified hypothesis cannot be used as the antecedent of an assumption: clause dropped
                 gz = self.goal_of(self.spec.clause(cl.text, ctx_n))
-                sn.assume(Implies(hz, gz))
+                sn.assume(Implies(conj(hitems), gz))
                 continue
             self.assume_clause(sn, self.spec.clause(cl.text, ctx_n))
         for h in c.hooks + self.reg.post_hooks:
